@@ -202,9 +202,13 @@ __strpd_card(struct strpd_s *d, const char *sp, struct dt_spec_s s, char **ep)
 		/* month and day of the month to come */
 		d->flags.d_dcnt_p = 0;
 		d->y = strtoi_lim(sp, &sp, DT_MIN_YEAR, DT_MAX_YEAR);
-		sp += *sp != '\0';
+		if (d->y < 0 || *sp++ != '-') {
+			break;
+		}
 		d->m = strtoi_lim(sp, &sp, 0, GREG_MONTHS_P_YEAR);
-		sp += *sp != '\0';
+		if (d->m < 0 || *sp++ != '-') {
+			break;
+		}
 		d->d = strtoi_lim(sp, &sp, 0, 31);
 		res = 0 - (d->y < 0 || d->m < 0 || d->d < 0);
 		break;
